@@ -9,3 +9,16 @@ func IsDistributionFilled(distribution map[uint]uint) bool {
 
 	return true
 }
+
+// Reports whether each of the specified priorities has a non-zero quantity in
+// the distribution. A priority that is absent from the distribution is considered
+// to have a zero quantity.
+func IsDistributionFilledFor(priorities []uint, distribution map[uint]uint) bool {
+	for _, priority := range priorities {
+		if distribution[priority] == 0 {
+			return false
+		}
+	}
+
+	return true
+}
